@@ -608,18 +608,79 @@ def check_future_ops(ctx):
     b = repo.get_class(B, "Builder")
     mfn = b.methods.get("_build_cmds_measure")
     ctx.fn("Builder._build_cmds_measure")
-    md = A.single_defs(mfn)
-    pf = "future"
-    out = [k for k, v in md.items() if isinstance(v, ast.Call) and A.call_name(v) == "get_new_meas_outcome_register"]
-    qr = [k for k, v in md.items() if isinstance(v, ast.Call) and A.call_name(v) == "_get_qubit_register"]
-    outr, qreg = (out[0] if len(out) == 1 else "?"), (qr[0] if len(qr) == 1 else "?")
-    ics = [e for e in E.icmds_in(mfn) if e.instr in ("MEAS", "MEAS_BASIS")]
-    ok = len(ics) == 4 and all(e.ops()[:2] == [qreg, outr] for e in ics)
-    stores = [c for c in A.calls_in(mfn) if A.call_name(c) == "_get_store_commands"]
-    ok = ok and len(stores) == 1 and A.norm(stores[0].args[0]) == outr and A.norm(stores[0].func.value) == pf
-    regs = [n for n in A.body_nodes(mfn) if isinstance(n, ast.Assign) and A.norm(n.targets[0]) == f"{pf}.reg"]
-    ok = ok and len(regs) == 1 and A.norm(regs[0].value) == outr
-    ctx.check("C05.M", "_build_cmds_measure:outcome-register-is-the-one-stored", ok, "the register that receives the measurement outcome is not the one stored into the Future / bound to the RegFuture", b.loc(mfn), sample={"meas_sites": len(ics)})
+    # executed abstractly (nqsa/circuit.py) over basis x explicit rotations x inplace x kind of future, with the register sources, the
+    # store-command builder and the pending-command sink modelled: the measurement writes register M, and M is what is stored into
+    # the Future / bound to the RegFuture; the qubit register is the one set to the qubit id; the qubit is freed iff not in place
+    import math as _math
+    from ..model import EnumMember
+    qmb = repo.get_class("netqasm.sdk.qubit", "QubitMeasureBasis")
+    fcls, rcls = fm.classes["Future"], fm.classes["RegFuture"]
+    ok, why = True, ""
+    n_runs = 0
+    try:
+        for bname in ("X", "Y", "Z"):
+            for rotations in (None, (3, 5, 7)):
+                for inplace in (False, True):
+                    for fkind in ("future", "regfuture"):
+                        n_runs += 1
+                        sc = C.Scenario()
+                        M, Q = C.RegSym("M"), C.RegSym("Q")
+                        queued, set_to, returned, unused = [], [], [], []
+                        sc.overrides["_get_qubit_register"] = lambda *a_, **k_: Q
+                        sc.overrides["_build_cmds_set_register_value"] = lambda reg=None, value=None, *a_, **k_: set_to.append((reg, value))
+                        sc.overrides["_build_cmds_free_up_qubit_location"] = lambda *a_, **k_: None
+                        sc.overrides["subrt_add_pending_commands"] = lambda commands=None, *a_, **k_: queued.extend(commands if commands is not None else a_[0])
+                        sc.method_overrides = {"_get_store_commands": lambda o, reg: [C.Obj(None, {"model": "store", "owner": o, "reg": reg})]}
+                        mem = C.Obj(None, {"get_new_meas_outcome_register": lambda: M, "meas_register_set_unused": lambda r: unused.append(r), "add_register_to_return": lambda r: returned.append(r)})
+                        bo = C.object_from_init(repo, b, {"_mem_mgr": mem, "_hardware_config": C.Obj(None, {"generic": True})}, kind="self")
+                        fut = C.Obj(fcls if fkind == "future" else rcls, {"reg": None}, "self")
+                        basis = EnumMember(qmb.qualname, bname, ctx.ev.enum_members(qmb)[bname])
+                        C.Interp(repo, ctx.ev, sc, b).call_function(b.module, mfn, [], {"qubit_id": 5, "future": fut, "inplace": inplace, "basis": basis, "rotations": rotations}, self_obj=bo)
+                        cmds = [x for x in queued if isinstance(x, C.Obj) and x.cls is not None and x.cls.name == "ICmd"]
+                        names = [getattr(x.fields.get("instruction"), "name", None) for x in cmds]
+                        where = f"basis={bname}, rotations={rotations}, inplace={inplace}, {fkind}"
+                        if not cmds or names[0] not in ("MEAS", "MEAS_BASIS") or queued[0] is not cmds[0]:
+                            ok, why = False, f"{where}: the first queued command is not the measurement ({names})"
+                            break
+                        mo = cmds[0].fields.get("operands") or []
+                        if len(mo) < 2 or mo[0] is not Q or mo[1] is not M or (Q, 5) not in set_to:
+                            ok, why = False, f"{where}: measurement operands {mo!r}; the qubit register must be the one set to the qubit id and the outcome register the fresh M register"
+                            break
+                        if rotations is not None and not (names[0] == "MEAS_BASIS" and tuple(mo[2:5]) == rotations):
+                            ok, why = False, f"{where}: explicit rotations are not the ones emitted ({mo[2:]!r})"
+                            break
+                        if rotations is None:
+                            rot = tuple(mo[2:5]) if names[0] == "MEAS_BASIS" else (0, 0, 0)
+                            den = mo[5] if names[0] == "MEAS_BASIS" and len(mo) > 5 else 4
+                            U = C.rot("x", rot[2] * _math.pi / 2 ** den) @ C.rot("y", rot[1] * _math.pi / 2 ** den) @ C.rot("x", rot[0] * _math.pi / 2 ** den)
+                            O = U.conj().T @ C.PZ @ U
+                            P = {"X": C.PX, "Y": C.PY, "Z": C.PZ}[bname]
+                            if not (abs(O - P).max() < 1e-9):
+                                ok, why = False, f"{where}: the emitted rotation {rot}/2^{den} followed by a Z measurement does not measure {bname}"
+                                break
+                        frees = [x for x in cmds[1:] if getattr(x.fields.get("instruction"), "name", None) == "QFREE"]
+                        if (len(frees) == 1) != (not inplace) or (frees and (frees[0].fields.get("operands") or [None])[0] is not Q):
+                            ok, why = False, f"{where}: the qubit is {'not ' if not frees else ''}freed"
+                            break
+                        stores = [x for x in queued if isinstance(x, C.Obj) and x.cls is None and x.fields.get("model") == "store"]
+                        if fkind == "future" and not (len(stores) == 1 and stores[0].fields["owner"] is fut and stores[0].fields["reg"] is M and queued.index(stores[0]) > 0):
+                            ok, why = False, f"{where}: the outcome register is not the one stored into the Future ({stores!r})"
+                            break
+                        if fkind == "regfuture" and not (any(v_ is M for v_ in fut.fields.values()) and returned == [M] and not stores):
+                            ok, why = False, f"{where}: the RegFuture is bound to {fut.fields.get('reg')!r} / returned {returned!r}, not to the outcome register"
+                            break
+                    if not ok:
+                        break
+                if not ok:
+                    break
+            if not ok:
+                break
+    except C.EvalRaise as ex_:
+        ok, why = False, f"raises {ex_}"
+    except AnalysisError as ex_:
+        ctx.error("C05.M", f"_build_cmds_measure cannot be evaluated: {ex_}")
+    ics = list(range(n_runs))
+    ctx.check("C05.M", "_build_cmds_measure:outcome-register-is-the-one-stored", ok, f"the register that receives the measurement outcome is not the one stored into the Future / bound to the RegFuture, or the measurement is not the requested one: {why}", b.loc(mfn), sample={"scenarios": len(ics)})
     # order: [measurement] + free + store; the terms are named by what they hold
     cat = None
     multi = A.assigned_names(mfn)
